@@ -68,6 +68,7 @@ type Interp struct {
 	depth    int
 	storeLog func(Ptr, Value)
 
+	inStub      int
 	spec        int
 	specFloor   int
 	merges      int
@@ -114,6 +115,7 @@ func (in *Interp) resetPath() {
 	in.storeLog = nil
 	in.replacements = map[string]FuncV{}
 	in.curPanicFr = nil
+	in.inStub = 0
 	in.noMerge = os.Getenv("VERIF_NOMERGE") != ""
 }
 
@@ -290,6 +292,9 @@ func (in *Interp) call(fv FuncV, args []Value, site ssa.Instruction) (ret Value)
 	}
 	name := fn.String()
 	if rep, ok := in.replacements[name]; ok {
+		// values drawn inside a stub are not inputs of the native replay (the real function runs there)
+		in.inStub++
+		defer func() { in.inStub-- }()
 		return in.call(rep, args, site)
 	}
 	if h := lookupIntrinsic(fn, name); h != nil {
